@@ -610,6 +610,26 @@ def m_vec_extend(ctx):
     return it_next(eng, ctx.st, it, stash, k)
 
 
+def m_slice_get(ctx):
+    """[T]::get(i) / Vec::get(i) with a usize index: Some(&self[i]) iff i < len."""
+    eng = ctx.eng
+    tps = turbofish_params(ctx.callee)
+    if tps and strip_lifetimes(tps[0]).strip() not in ("usize",):
+        return eng.uninterpreted(ctx.st, ctx.frame, ctx.dest, ctx.dest_ty, ctx.ret_bb, ctx.callee, ctx.norm, ctx.args, ctx.site)
+    s = slice_of(eng, ctx.args[0])
+    idx = eng.scalar(ctx.args[1], "usize")
+    inb = z3.ULT(idx, eng.length(s))
+
+    def some(st2, pl):
+        ss = slice_of(eng, pl["a"])
+        el = index_elem(eng, st2, ss, idx)
+        return finish_call(eng, st2, pl, mk_enum(eng, "Option", "Some", [mk_ref(el)], ty=pl["dest_ty"]))
+
+    def none(st2, pl):
+        return finish_call(eng, st2, pl, _none(pl["dest_ty"]))
+    return decide(eng, ctx.st, inb, call_stash(ctx, a=ctx.args[0]), some, none)
+
+
 def m_vec_truncate(ctx):
     eng = ctx.eng
     v = eng.deref(ctx.args[0])
@@ -851,6 +871,7 @@ def install(eng):
     M["core::slice::<impl [T]>::last"] = m_slice_last
     M["core::slice::<impl [T]>::last_mut"] = m_slice_last
     M["core::slice::<impl [T]>::contains"] = m_contains
+    M["core::slice::<impl [T]>::get"] = m_slice_get
     R.append((re.compile(r"<.* as IntoIterator>::into_iter"), m_into_iter))
     for kind, nargs in (("map", 2), ("filter", 2), ("filter_map", 2), ("enumerate", 1), ("rev", 1), ("zip", 2),
                         ("chain", 2), ("cloned", 1), ("copied", 1)):
